@@ -35,7 +35,12 @@ RULE = ('tables of 2-7 columns (quick: mostly 3-5) x 60-120 rows from a random c
         'duplicated column) / indep / zero (Kendall tau with column 0 EXACTLY 0: x on a symmetric grid with '
         'x**2, rows mirrored in column 0, 9-row permutation grids; the first 8 tables of every run) / ties (yes-no flags, 3-5 level ratings, rounded columns next to '
         'continuous ones, re-drawn until the maximum spanning tree of |tau-a| is not one of |tau-b|; tables 9-14 of '
-        'every run); the truncation t in 1..d+1 is passed as fit(X, t), fit(X, truncated=t), fit(X=X, truncated=t) or omitted '
+        'every run) / neareq (rank tables in which the two candidate edges for attaching a column have |tau-b| '
+        '1e-9..6e-8 apart - concordance counts equal up to a few units, a tie group in one column - in all six column '
+        'orders; tables 15-20 of every run); every table is relabelled (values untouched): column labels default / '
+        'RangeIndex / descending or shuffled strings / permuted or non-contiguous ints / tuples / mixed types / '
+        'floats, row index default / DatetimeIndex / strings / offset ints / shuffled ints - all references are by '
+        'POSITION of the table as given; the truncation t in 1..d+1 is passed as fit(X, t), fit(X, truncated=t), fit(X=X, truncated=t) or omitted '
         '(then t = the default 3); the search additionally runs every t in 1..d+1 in every call form on small '
         'tables; about 1 fit in 3 is a SECOND fit of an object first fitted on another table (columns permuted / '
         'fresh same width / narrower / wider, own truncation) and is compared with a fresh object; the tau matrix '
@@ -138,6 +143,101 @@ def tied_columns(rng, rs, Z):
         else:
             Z[:, c] = np.round(Z[:, c])
     return Z
+
+
+# ----------------------------------------------------------------------------- column labels and row index
+COL_SCHEMES = ('default', 'range', 'descending-str', 'shuffled-str', 'permuted-int', 'noncontiguous-int', 'tuples',
+               'mixed', 'floats')
+ROW_SCHEMES = ('default', 'datetime', 'strings', 'offset-int', 'shuffled-int')
+
+
+def relabel(rng, X, col=None, row=None):
+    """Same values, other labels.  The tau matrix, the edge indices and every reference of the oracle are BY
+    POSITION of the table as given; labels (ascending or not, any hashable type) and the row index must not matter."""
+    d, n = X.shape[1], X.shape[0]
+    col = col or rng.choice(COL_SCHEMES)
+    row = row or rng.choice(ROW_SCHEMES)
+    words = ['alpha', 'beta', 'delta', 'gamma', 'kappa', 'mu', 'omega', 'zeta']
+    if col == 'range':
+        cols = None
+    elif col == 'descending-str':
+        cols = sorted(rng.sample(words, d), reverse=True)
+    elif col == 'shuffled-str':
+        cols = rng.sample(words, d)
+        if cols == sorted(cols) and d > 1:
+            cols = cols[::-1]
+    elif col == 'permuted-int':
+        cols = list(range(d))
+        rng.shuffle(cols)
+        if cols == sorted(cols) and d > 1:
+            cols = cols[::-1]
+    elif col == 'noncontiguous-int':
+        cols = rng.sample(range(-5, 40), d)
+        if cols == sorted(cols) and d > 1:
+            cols = cols[::-1]
+    elif col == 'tuples':
+        cols = [(rng.choice('abg'), k) for k in rng.sample(range(9), d)]
+        if cols == sorted(cols) and d > 1:
+            cols = cols[::-1]
+    elif col == 'mixed':
+        pool = [3, 'b', ('t', 1), 1.5, 'a', 0, ('s', 2), -2.5]
+        cols = rng.sample(pool, d)
+    elif col == 'floats':
+        cols = rng.sample([2.5, 0.1, 9.0, -1.0, 4.25, 7.5, -3.0, 0.5], d)
+        if cols == sorted(cols) and d > 1:
+            cols = cols[::-1]
+    else:
+        cols = list(X.columns)
+    if row == 'datetime':
+        idx = pd.date_range('2021-03-01', periods=n, freq='h')
+    elif row == 'strings':
+        idx = [f'r{i:04d}' for i in range(n)][::-1]
+    elif row == 'offset-int':
+        idx = range(500, 500 + n)
+    elif row == 'shuffled-int':
+        idx = list(range(n))
+        rng.shuffle(idx)
+    else:
+        idx = None
+    Y = pd.DataFrame(X.to_numpy(), columns=cols, index=idx)
+    Y.attrs['labels'] = f'columns:{col} rows:{row}'
+    return Y
+
+
+def enc_labels(index):
+    out = []
+    for x in index:
+        if isinstance(x, tuple):
+            out.append({'tuple': [v.item() if hasattr(v, 'item') else v for v in x]})
+        elif isinstance(x, pd.Timestamp):
+            out.append({'timestamp': x.isoformat()})
+        else:
+            out.append(x.item() if hasattr(x, 'item') else x)
+    return out
+
+
+def dec_labels(lst):
+    out = []
+    for x in lst:
+        if isinstance(x, dict) and 'tuple' in x:
+            out.append(tuple(x['tuple']))
+        elif isinstance(x, dict) and 'timestamp' in x:
+            out.append(pd.Timestamp(x['timestamp']))
+        else:
+            out.append(x)
+    return out
+
+
+def enc_frame(X):
+    e = {'columns': enc_labels(X.columns), 'rows': X.to_numpy().tolist()}
+    if not (isinstance(X.index, pd.RangeIndex) and X.index.start == 0 and X.index.step == 1):
+        e['row_index'] = enc_labels(X.index)
+    return e
+
+
+def dec_frame(e):
+    idx = dec_labels(e['row_index']) if e.get('row_index') is not None else None
+    return pd.DataFrame(np.array(e['rows'], dtype=float), columns=dec_labels(e['columns']), index=idx)
 
 
 # ----------------------------------------------------------------------------- near-equal |tau| tables
@@ -565,12 +665,11 @@ def compare_trees(model, real):
 
 
 def table_input(X, vt, t, history=(), form='keyword'):
-    inp = {'columns': list(X.columns), 'rows': X.to_numpy().tolist(), 'vine_type': vt, 'truncated': int(t),
-           'call_form': form, 'call': FORM_TEXT[form]}
+    inp = dict(enc_frame(X), vine_type=vt, truncated=int(t), call_form=form, call=FORM_TEXT[form],
+               labels=X.attrs.get('labels', 'columns:default rows:default'))
     if history:
-        inp['fitted_before_on_the_same_object'] = [
-            {'columns': list(Xh.columns), 'rows': Xh.to_numpy().tolist(), 'truncated': int(th), 'call_form': fh}
-            for Xh, th, fh in history]
+        inp['fitted_before_on_the_same_object'] = [dict(enc_frame(Xh), truncated=int(th), call_form=fh)
+                                                   for Xh, th, fh in history]
     return inp
 
 
@@ -582,7 +681,7 @@ def gen_history(rng, X, d):
         perm = list(range(d))
         while perm == list(range(d)):
             rng.shuffle(perm)
-        A = pd.DataFrame(X.to_numpy()[:, perm], columns=list(X.columns))
+        A = pd.DataFrame(X.to_numpy()[:, perm])
     elif kind == 'narrower' and d >= 3:
         A = gen_table(rng, d - 1, rng.choice(['plain', 'discrete', 'small']))
     elif kind == 'wider' and d <= 6:
@@ -591,7 +690,7 @@ def gen_history(rng, X, d):
         kind = 'fresh-same-width'
         A = gen_table(rng, d, rng.choice(['plain', 'swap', 'ties']))
     fh, th = pick_call(rng, A.shape[1])
-    return kind, [(A, th, fh)]
+    return kind, [(relabel(rng, A), th, fh)]
 
 
 def tau_matrix_diff(tau_first, tau_ref):
@@ -660,6 +759,11 @@ def run(ctx, lean):
             d, mode = 3, 'neareq'
             near_eq = near_eq or near_equal_tables(rng, 3)
         X = near_eq[it - 14] if 14 <= it < 20 else gen_table(rng, d, mode)
+        # labels: every column scheme in turn on the first tables, then at random; values untouched
+        X = relabel(rng, X, COL_SCHEMES[it % len(COL_SCHEMES)] if it < 27 else None,
+                    ROW_SCHEMES[it % len(ROW_SCHEMES)] if it < 27 else None)
+        ctx.count('labels ' + X.attrs['labels'].split()[0])
+        ctx.count('labels ' + X.attrs['labels'].split()[1])
         tau0 = tau_b_matrix(X.to_numpy())       # independent reference (scipy.stats.kendalltau, tau-b)
         if any(tau0[0, j] == 0.0 for j in range(1, d)):
             ctx.count('table with tau(col 0, col j) == 0 exactly')
@@ -1127,7 +1231,8 @@ def search(ctx, deep):
         nz = 16 if deep else 4
         if nz <= it < nz + (12 if deep else 3):     # then heavily tied tables on which tau-a and tau-b MSTs differ
             d, mode = 3 + it % 3, 'ties'
-        X = gen_table(rng, d, mode)
+        X = relabel(rng, gen_table(rng, d, mode), COL_SCHEMES[(it + 2) % len(COL_SCHEMES)],
+                    ROW_SCHEMES[(it + 1) % len(ROW_SCHEMES)])
         for vt in TYPES:
             for t in ([rng.randint(1, d + 1)] if not deep else sorted({1, rng.randint(1, d), d - 1 if d > 2 else 1, d + 1})):
                 check_real(ctx, X, vt, t, counts, form=rng.choices(FORMS[:2] + FORMS[3:], (4, 4, 1))[0])
@@ -1138,7 +1243,7 @@ def search(ctx, deep):
                 check_real(ctx, X, vt, tr, counts, hist, fr)
     # every truncation 1..d+1 on small tables, passed positionally / by keyword / with X by keyword / omitted
     for d in ((2, 3, 4) if not deep else (2, 3, 4, 5, 6)):
-        X = gen_table(rng, d, rng.choice(['plain', 'discrete', 'swap']))
+        X = relabel(rng, gen_table(rng, d, rng.choice(['plain', 'discrete', 'swap'])))
         for vt in TYPES:
             for t in range(1, d + 2):
                 for form in (('positional', 'keyword') if not deep else ('positional', 'keyword', 'x-keyword')):
@@ -1148,6 +1253,7 @@ def search(ctx, deep):
     # two competing |tau| values 1e-9..6e-8 apart, every column order (MST clause with weights in double precision)
     for rep_ in range(1 if not deep else 6):
         for X in near_equal_tables(rng, 3 if rep_ % 2 == 0 else 4):
+            X = relabel(rng, X)
             for vt in (TYPES if rep_ == 0 else ('regular',)):
                 counts['near-equal-tau fits'] = counts.get('near-equal-tau fits', 0) + 1
                 check_real(ctx, X, vt, rng.randint(1, X.shape[1]), counts)
@@ -1156,10 +1262,10 @@ def search(ctx, deep):
 
 def replay(ctx, payload):
     inp = payload['input']
-    X = pd.DataFrame(np.array(inp['rows'], dtype=float), columns=inp['columns'])
+    X = dec_frame(inp)
     counts = {'fits': 0, 'checked': 0, 'refused': 0, 'failures': 0}
     before = len(ctx.failing)
-    hist = [(pd.DataFrame(np.array(h['rows'], dtype=float), columns=h['columns']), h['truncated'],
-             h.get('call_form', 'keyword')) for h in inp.get('fitted_before_on_the_same_object', [])]
+    hist = [(dec_frame(h), h['truncated'], h.get('call_form', 'keyword'))
+            for h in inp.get('fitted_before_on_the_same_object', [])]
     check_real(ctx, X, inp['vine_type'], inp['truncated'], counts, hist, inp.get('call_form', 'keyword'))
     return any(f['class'] == payload.get('class') for f in ctx.failing[before:])
